@@ -263,7 +263,7 @@ def main(argv=None):
                     cmd += ['--replay', args.replay]
                 log = open(os.path.join(tmpd, 'shard%d.log' % i), 'wb')
                 p = subprocess.Popen(cmd, cwd=HERE, stdout=log, stderr=subprocess.STDOUT,
-                                     start_new_session=True)
+                                     start_new_session=True, env=dict(os.environ, VERIF_TMP=tmpd))
                 running[i] = (p, out, time.monotonic(), log)
             time.sleep(0.05)
             for i, (p, out, ts, log) in list(running.items()):
